@@ -750,3 +750,74 @@ Theorem frame_len_unused_pointer_refuted :
   exists raw, frame_pack unused_pointer_frame false None = Ok raw /\
               len raw = 12 /\ frame_len_of unused_pointer_frame = 14.
 Proof. split; [reflexivity|]. eexists. split; [reflexivity|]. split; reflexivity. Qed.
+
+(* ================= C10: every strict prefix of a packed frame is refused ================= *)
+
+Lemma firstn_app_ge {A} (l1 l2 : list A) n : (length l1 <= n)%nat ->
+  firstn n (l1 ++ l2) = l1 ++ firstn (n - length l1) l2.
+Proof. intros H. rewrite firstn_app, firstn_all2 by assumption. reflexivity. Qed.
+
+Lemma firstn_app_lt {A} (l1 l2 : list A) n : (n <= length l1)%nat ->
+  firstn n (l1 ++ l2) = firstn n l1.
+Proof.
+  intros H. rewrite firstn_app. replace (n - length l1)%nat with 0%nat by lia.
+  cbn [firstn]. apply app_nil_r.
+Qed.
+
+Theorem frame_prefix_rejected f p n : frame_consistent f -> frame_len_set f -> props_match f p ->
+  (n < length (frame_layout (hdr_layout (hdr f)) f))%nat ->
+  frame_unpack (firstn n (frame_layout (hdr_layout (hdr f)) f)) (ftype_of_rule (rules (ftfdf f))) p =
+  Err EInvalidLen.
+Proof.
+  intros Hc Hset Hm Hn.
+  pose proof (frame_len_is_layout_len f Hc) as Ltot.
+  set (L := frame_layout (hdr_layout (hdr f)) f) in *.
+  assert (Ld : len (firstn n L) = Z.of_nat n) by (unfold len; rewrite firstn_length; lia).
+  assert (Lt : Z.of_nat n < frame_len_of f) by (rewrite Ltot; unfold len; lia).
+  destruct (Z_lt_le_dec (Z.of_nat n) 4) as [S4|G4].
+  { apply frame_unpack_too_short. lia. }
+  destruct Hm as (Pfx & Pl & _).
+  destruct Hc as (Hv & (Hr & _) & _ & Htr).
+  rewrite frame_unpack_unfold. rewrite Ld. destruct (_ <? 4) eqn:E4; [lia|]. clear E4.
+  unfold ftype_of_rule in *. destruct (rules (ftfdf f) <? 3) eqn:R.
+  { rewrite Pfx. cbn [negb]. rewrite Pl by (left; assumption).
+    destruct (Z.of_nat n <? frame_len_of f) eqn:E; [reflexivity|lia]. }
+  cbn [bind].
+  unfold L, frame_layout.
+  set (X := opt_bytes_of (izone f) ++ tfdf_layout (rules (ftfdf f)) (ident (ftfdf f)) (fhp (ftfdf f)) (tfdz (ftfdf f)) ++
+            opt_bytes_of (ocf f) ++ opt_bytes_of (fecf f)).
+  pose proof (hdr_layout_len (hdr f) Hv) as LH. unfold len in LH.
+  destruct (hdr f) as [b|ph] eqn:Eh; cbn [hdr_layout hdr_truncated hdr_valid hdr_len] in *.
+  - (* truncated header: 4 octets, always inside the prefix *)
+    unfold thdr_len in LH.
+    rewrite firstn_app_ge by lia.
+    pose proof (determine_hdr_layout (HTrunc b) (firstn (n - length (thdr_layout b)) X) Hv) as D.
+    cbn [hdr_layout hdr_truncated] in D. rewrite D. cbn [bind].
+    change (HT_TRUNCATED =? HT_TRUNCATED) with true. cbv iota.
+    rewrite Pfx. rewrite thdr_unpack_pack by assumption. cbn [bind].
+    unfold frame_unpack_body. cbn [bind]. rewrite Pfx. cbn [bind].
+    rewrite Pl by (right; reflexivity).
+    destruct (_ <? frame_len_of f) eqn:E; [reflexivity|].
+    rewrite len_app in E. unfold len in E. rewrite firstn_length in E.
+    change (length (thdr_layout b)) with 4%nat in *. lia.
+  - destruct (Nat.lt_ge_cases n (length (phdr_layout ph))) as [Sh|Gh].
+    + (* cut inside the header *)
+      rewrite firstn_app_lt by lia.
+      destruct (phdr_layout_octets ph Hv) as (o0 & o1 & o2 & o3 & o4 & o5 & o6 & E & W & V & T & N & P).
+      assert (D : determine_header_type (firstn n (phdr_layout ph)) = Ok HT_NON_TRUNCATED).
+      { rewrite E. do 4 (destruct n as [|n]; [lia|]). cbn [firstn].
+        rewrite determine_header_type_spec.
+        - rewrite T. reflexivity.
+        - unfold wf_bytes in W. repeat match goal with H : Forall _ (_ :: _) |- _ => inversion H; clear H; subst end. assumption. }
+      rewrite D. cbn [bind]. change (HT_NON_TRUNCATED =? HT_TRUNCATED) with false. cbv iota.
+      rewrite phdr_prefix_rejected by assumption. reflexivity.
+    + rewrite firstn_app_ge by lia.
+      pose proof (determine_hdr_layout (HPrim ph) (firstn (n - length (phdr_layout ph)) X) Hv) as D.
+      cbn [hdr_layout hdr_truncated] in D. rewrite D. cbn [bind].
+      change (HT_NON_TRUNCATED =? HT_TRUNCATED) with false. cbv iota.
+      rewrite phdr_unpack_pack by assumption. cbn [bind].
+      unfold frame_unpack_body. cbn [bind phdr_norm frame_len].
+      unfold frame_len_set in Hset. rewrite Eh in Hset. rewrite Hset.
+      destruct (_ <? frame_len_of f - 1 + 1) eqn:E; [reflexivity|].
+      rewrite len_app in E. unfold len in E. rewrite firstn_length in E. lia.
+Qed.
